@@ -20,12 +20,17 @@ open Vgi Vgi.HttpStream Vgi.StreamParity Vgi.Generated.C16
 /-- **http_refines_pipe**: with no response-size cap configured, the client's view of a whole stream
 session over HTTP equals its view over a pipe — for every batch limit, cache setting, routing
 function and prior history (`w`), given enough continuation requests (`fuel`). `hstat`: a static
-exchange method always registers its input schema (`vgirpc.Exchange` refuses `nil`). -/
+exchange method always registers its input schema (`vgirpc.Exchange` refuses `nil`). `hnf`: the
+client's own input metadata uses none of the transport's keys (a pipe strips nothing). The view
+includes what the handler observed: an echoing emit (`Act.emitEcho`) carries the handler's
+`InputMetadata` into the emitted batch's metadata, so the two transports must hand the handler the
+same metadata — also for inputs that were cast. -/
 theorem http_refines_pipe (cfg : Cfg) (hW : cfg.maxResp = 0) (hE : cfg.maxExt = 0) (route : Nat → Nat)
     (fuel : Nat) (w : World) (rq : InitReq) (inputs : List InBatch)
-    (hfuel : rq.st.prog.length + 1 ≤ fuel) (hstat : rq.dynamic = false → rq.declared = true) :
+    (hfuel : rq.st.prog.length + 1 ≤ fuel) (hstat : rq.dynamic = false → rq.declared = true)
+    (hnf : ∀ b ∈ inputs, NoFw b.md) :
     httpRun cfg route fuel w rq inputs = pipeRun rq inputs :=
-  httpRun_eq_pipeRun cfg hW hE route fuel w rq inputs hfuel hstat
+  httpRun_eq_pipeRun cfg hW hE route fuel w rq inputs hfuel hstat hnf
 
 /-- **http_configuration_irrelevant**: two HTTP deployments that differ in batch limit, call cache,
 storage settings, routing and history give the client the same view. -/
@@ -33,10 +38,10 @@ theorem http_configuration_irrelevant (cfg1 cfg2 : Cfg) (h1W : cfg1.maxResp = 0)
     (h2W : cfg2.maxResp = 0) (h2E : cfg2.maxExt = 0) (route1 route2 : Nat → Nat) (fuel1 fuel2 : Nat)
     (w1 w2 : World) (rq : InitReq) (inputs : List InBatch)
     (hf1 : rq.st.prog.length + 1 ≤ fuel1) (hf2 : rq.st.prog.length + 1 ≤ fuel2)
-    (hstat : rq.dynamic = false → rq.declared = true) :
+    (hstat : rq.dynamic = false → rq.declared = true) (hnf : ∀ b ∈ inputs, NoFw b.md) :
     httpRun cfg1 route1 fuel1 w1 rq inputs = httpRun cfg2 route2 fuel2 w2 rq inputs := by
-  rw [http_refines_pipe cfg1 h1W h1E route1 fuel1 w1 rq inputs hf1 hstat,
-      http_refines_pipe cfg2 h2W h2E route2 fuel2 w2 rq inputs hf2 hstat]
+  rw [http_refines_pipe cfg1 h1W h1E route1 fuel1 w1 rq inputs hf1 hstat hnf,
+      http_refines_pipe cfg2 h2W h2E route2 fuel2 w2 rq inputs hf2 hstat hnf]
 
 /-- **producer_turns_equal_pipe**: following the continuation tokens of a producer stream (any wire
 cap, any batch limit) from a cursor delivers exactly what the pipe loop delivers from that state. -/
@@ -53,9 +58,9 @@ streams without a declared schema, failures, cancel). -/
 theorem exchange_turns_equal_pipe (cfg : Cfg) (hW : cfg.maxResp = 0) (hE : cfg.maxExt = 0) (route : Nat → Nat)
     (dyn : Bool) (inputs : List InBatch) (n : Nat) (w : World) (tok : Val) (cur : Cursor)
     (hopen : openCursor w tok = some cur) (hp : cur.st.producer = false) (hd : cur.dyn = dyn)
-    (hstat : dyn = false → cur.declared = true) :
+    (hstat : dyn = false → cur.declared = true) (hnf : ∀ b ∈ inputs, NoFw b.md) :
     httpExchange cfg route dyn inputs n w tok (.call cur.call) = pipeExchange cur.declared cur.st inputs :=
-  httpExchange_spec cfg hW hE route dyn inputs n w tok cur hopen hp hd hstat
+  httpExchange_spec cfg hW hE route dyn inputs n w tok cur hopen hp hd hstat hnf
 
 /-- the pipe's producer loop is the unlimited run `fullRun` (the right-hand side of C19's
 `producer_complete`) seen through the client's eyes -/
@@ -93,6 +98,25 @@ example : pipeRun { dynEx with declared := false } castIns =
     { header := some 7, items := [.log 0, .log 1], term := .error (.handler 77) } ∧
     httpRun cfgA (fun n => n % 3) 5 World.empty { dynEx with declared := false } castIns =
       pipeRun { dynEx with declared := false } castIns := by decide
+
+/-- an exchange stream whose handler echoes its InputMetadata; castable inputs carrying user metadata -/
+def echoEx : InitReq :=
+  { st := { prog := [[.emitEcho (.input 0) true], [.log 1, .emitEcho (.const [9]) true], [.emitEcho (.input 1) true]],
+            pos := 0, producer := false, cancel := .absent } }
+
+def echoIns : List InBatch :=
+  [{ kind := .castable, vals := [5], md := [(kA, [49])] }, { kind := .same, vals := [6], md := [] },
+   { kind := .castable, vals := [7], md := [(kA, [50]), ([98], [51])] }]
+
+example : pipeRun echoEx echoIns =
+    { header := none, items := [.data [5] [(kA, [49])], .log 1, .data [9] [], .data [8] [(kA, [50]), ([98], [51])]],
+      term := .idle } ∧
+    httpRun cfgA (fun n => n % 2) 5 World.empty echoEx echoIns = pipeRun echoEx echoIns := by decide
+
+example : NoFw [(kA, [50]), (([98] : Bytes), [51])] := by
+  intro kv h
+  simp at h
+  rcases h with rfl | rfl <;> decide
 
 /-- a producer of four cycles, the third with a log after its data batch -/
 def prodRq : InitReq :=
